@@ -557,6 +557,21 @@ def run(ctx: Ctx) -> None:
                     and c_.left.id in eval_vars and _const_path(c_.comparators[0]) not in (None, ("dds", "eval"))
                 ):
                     eval_outs.append(n_)
+        # ... also when the comparison is held in a boolean local (`is_keep = callee_path == <keep>`; `is_load = not is_keep and callee_path == <load>`; `if is_keep or is_load:`)
+        for n_ in cfg.nodes:
+            if n_.kind == "branch" and n_.label == "T" and isinstance(n_.ast, ast.Name):
+                try:
+                    ds_ = fl.defs_of_use(n_.ast)
+                except Exception:
+                    ds_ = []
+                if len(ds_) == 1 and ds_[0].value is not None and getattr(ds_[0], "kind", "assign") == "assign":
+                    v_ = ds_[0].value
+                    conj_ = v_.values if isinstance(v_, ast.BoolOp) and isinstance(v_.op, ast.And) else [v_]
+                    for c_ in conj_:
+                        if isinstance(c_, ast.Compare) and len(c_.ops) == 1 and isinstance(c_.ops[0], ast.Eq) and isinstance(c_.left, ast.Name) \
+                                and _const_path(c_.comparators[0]) not in (None, ("dds", "eval")) and (not eval_vars or c_.left.id in eval_vars):
+                            eval_outs.append(n_)
+                            break
         fam_ = family_of(ctx, f)
         ep_ = entry_path(ctx, f)
         if ep_ is not None and ep_ != ("dds", "eval"):
